@@ -362,15 +362,7 @@ def check_translate(ctx, w):
            msg='the forms re-translated for the top DIE differ from the forms whose translation is deferred')
     ctx.ob('SIB', g2.construct, 'deferred form set == specification', sets == [union], got=sorted(sets[0] ^ union) if sets else None)
     # helpers
-    h = w.model.func('dwarf/dwarf_util.py', '_resolve_via_offset_table')
-    henv = expr.FEnv(h.node, params=('stream', 'cu', 'index', 'base_attribute_name'))
-    rets = [expr.nfs(r.value, henv) for r in expr.returns_of(h.node)]
-    want = expr.spec_nf("_get_base_offset(cu, base_attribute_name) + struct_parse(the_Dwarf_offset, stream, "
-                        "_get_base_offset(cu, base_attribute_name) + index * (4 if dwarf_format == 32 else 8))")
-    ctx.ob('G-TRANS', h.construct, 'base + word at base + index*(4|8)', rets == [want], got=rets, expected=want)
-    ctx.ob('I-WIDTH', h.construct, 'offset size 4/8 by format', 'offset_size = 4 if cu.structs.dwarf_format == 32 else 8' in U(h.node))
-    ctx.ob('G-TRANS', h.construct, 'under preserve_stream_pos', any(isinstance(n, ast.With) and 'preserve_stream_pos(stream)' in U(n.items[0]) and
-           any(isinstance(x, ast.Return) for x in ast.walk(n)) for n in ast.walk(h.node)))
+    check_offset_table(ctx, w, 'G-TRANS')
     h = w.model.func(DI, 'DWARFInfo.get_addr')
     henv = expr.FEnv(h.node, params=('cu', 'addr_index'))
     ops = [o.t() for o in streams.func_ops(h.node, henv) if o.kind == 'parse']
@@ -469,6 +461,20 @@ def check_refs(ctx, w):
         g = w.model.func(mod, cls + '.size')
         rets = [expr.nfs(r.value, expr.FEnv(g.node)) for r in expr.returns_of(g.node)]
         ctx.ob('E-i', g.construct, 'extent = unit_length + initial length size', rets == [expr.spec_nf('unit_length + structs.initial_length_field_size()')], got=rets)
+
+
+def check_offset_table(ctx, w, rule):
+    """list index forms: the list offset is the table base plus the word stored at base + index * (4|8), read from the section
+    the caller names -- computed, not remembered (shared with C07)"""
+    h = w.model.func('dwarf/dwarf_util.py', '_resolve_via_offset_table')
+    henv = expr.FEnv(h.node, params=('stream', 'cu', 'index', 'base_attribute_name'))
+    rets = [expr.nfs(r.value, henv) for r in expr.returns_of(h.node)]
+    want = expr.spec_nf("_get_base_offset(cu, base_attribute_name) + struct_parse(the_Dwarf_offset, stream, "
+                        "_get_base_offset(cu, base_attribute_name) + index * (4 if dwarf_format == 32 else 8))")
+    ctx.ob(rule, h.construct, 'base + word at base + index*(4|8)', rets == [want], got=rets, expected=want)
+    ctx.ob(rule, h.construct, 'offset size 4/8 by format', 'offset_size = 4 if cu.structs.dwarf_format == 32 else 8' in U(h.node))
+    ctx.ob(rule, h.construct, 'under preserve_stream_pos', any(isinstance(n, ast.With) and 'preserve_stream_pos(stream)' in U(n.items[0]) and
+           any(isinstance(x, ast.Return) for x in ast.walk(n)) for n in ast.walk(h.node)))
 
 
 def check_cu_containing(ctx, w, rule):
